@@ -107,7 +107,9 @@ def jobs(tier: str):
                     continue
                 body = "; ".join(binders + list(lits))
                 for cname, ctx in CONTEXTS:
-                    if tier == "quick" and cname not in ("rX", "rN", "c", "w"):
+                    if tier == "quick" and cname not in ("rX", "rN", "w"):
+                        continue
+                    if tier == "quick" and bname != "pq" and len(lits) == 2:
                         continue
                     stm = ctx.format(B=body)
                     const = "#const n = 1.\n" if "n" in text.replace("not", "").replace("#min", "").replace("#count", "") and "X = n" in lits else ""
